@@ -168,7 +168,7 @@ func c08cuts(v *c08valid) []int {
 
 func c08mutValues(n uint32) []uint32 {
 	var r []uint32
-	for _, v := range []uint32{0, 1, n - 1, n + 1, 1<<31 - 1, 1<<32 - 1} {
+	for _, v := range append([]uint32{0, 1, n - 1, n + 1, 1<<31 - 1, 1<<32 - 1}, wrapValues()...) {
 		dup := v == n
 		for _, x := range r {
 			if x == v {
